@@ -684,6 +684,7 @@ package xmss
 //@   props C08X
 //@   inlines xmss.xmssFastSignMessage xmss.xmssFastUpdate
 //@   unroll xmss.xmssFastUpdate 1 1
+//@   quiet xmss.hMsg xmss.wotsSign xmss.prf misc.ToByteLittleEndian xmss.getSignatureSize
 //@   requires paramsOK(params) && len(skA) == 132 && len(skB) == 132 && bdsShape(bdsA, params.h) && bdsShape(bdsB, params.h)
 //@   requires skA[0:132] == skB[0:132] && bdsEqS(bdsA, bdsB) && idxOf(skB) + 1 < spec.pow2(params.h)
 //@   ensures[C08X] skA[0:132] == skB[0:132]
